@@ -140,16 +140,18 @@ def c18_number(n: int) -> bool:
 # Part 2: confinement
 PIDSEL = ('absent', 'own0', 'own1', 'other_watcher', 'unrelated', 'dead', 'zero', 'minus1', 'string_own', 'child_of_own', 'daemon')
 CHILDSEL = ('absent', 'child0', 'grandchild0', 'child_of_other', 'own1', 'unrelated', 'zero', 'string_child')
-STATES = ('active', 'stopped', 'stopping', 'one_killed')
+STATES = ('active', 'stopped', 'stopping', 'one_killed', 'other_stopping')
 SIGS = (15, 'usr1', 'SIGHUP', 9, '10')
 
 
-def c18_confinement(cmd: int, ps: int, cs: int, ch: bool, rec: bool, st: int, sg: int) -> bool:
+def c18_confinement(cmd: int, ps: int, cs: int, ch: bool, rec: bool, st: int, sg: int, sc: int) -> bool:
     """
     A signal / kill request can only ever signal workers of the NAMED watcher or their descendants, with exactly the
     designated signal; a refused request signals nobody.
 
     pre: 0 <= cmd <= 1 and ps == rt.S['ps'] and 0 <= cs < len(CHILDSEL) and 0 <= st < len(STATES) and 0 <= sg < len(SIGS)
+    pre: 0 <= sc <= 1 and (sc == 0 or (cmd == 1 and st == 0))
+    pre: st != 4 or (cmd == 0 and (cs == 3 or ps == 3))
     post: _
     """
     from vtlib.harness.scen import World, Beh
@@ -159,11 +161,12 @@ def c18_confinement(cmd: int, ps: int, cs: int, ch: bool, rec: bool, st: int, sg
     cs = rt.pick(cs, len(CHILDSEL))
     st = rt.pick(st, len(STATES))
     sg = rt.pick(sg, len(SIGS))
+    sc = rt.pick(sc, 2)
     with World() as w:
         k = w.kernel
         k.behaviour = lambda i, argv: Beh(obey=None, nchildren=1, grandchildren=1, child_obey=None)
-        wa = w.mk_watcher('a', numprocesses=2, graceful_timeout=0.3)
-        wb = w.mk_watcher('b', numprocesses=1, graceful_timeout=0.3)
+        wa = w.mk_watcher('a', numprocesses=2, graceful_timeout=0.3, stop_children=bool(sc))
+        wb = w.mk_watcher('b', numprocesses=1, graceful_timeout=0.3, stop_children=True)
         w.boot([wa, wb], check_delay=-1)
         own = k.alive_pids('a')
         other = k.alive_pids('b')
@@ -179,6 +182,9 @@ def c18_confinement(cmd: int, ps: int, cs: int, ch: bool, rec: bool, st: int, sg
                 # a worker was just terminated by a kill request: dead and reaped by poll(), its table entry not yet dropped
                 w.call('kill', name='a', pid=own[0], waiting=True, graceful_timeout=0.1, max_time=10.0)
                 w.run_for(0.01)
+            elif STATES[st] == 'other_stopping':
+                # the OTHER watcher is in the grace period of a stop that listed its workers' children (stop_children)
+                w.send('stop', name='b', match='simple')
             allowed = set()
             for p in own:
                 allowed.add(p)
@@ -211,7 +217,7 @@ def c18_confinement(cmd: int, ps: int, cs: int, ch: bool, rec: bool, st: int, sg
                 props['graceful_timeout'] = 0.2
                 r = w.call('kill', waiting=True, max_time=10.0, **props)
             added = [s for s in k.signal_log[n0:]]
-            if STATES[st] == 'stopping':
+            if STATES[st] in ('stopping', 'other_stopping'):
                 # the stop in flight signals too: only entries carrying the requested (distinct) signal are attributed to the request
                 added = [s for s in added if s['sig'] == want and want not in (15, 9)]
             ok = True
@@ -223,7 +229,8 @@ def c18_confinement(cmd: int, ps: int, cs: int, ch: bool, rec: bool, st: int, sg
                 if cmd == 0 and s['sig'] != want:
                     rt.note('signal request for %r delivered signal %r', sig, s['sig'])
                     ok = False
-                if cmd == 1 and s['sig'] not in (want, 9, 15):
+                after_sigkill = s['sig'] == 15 and [x for x in added if x['pid'] == s['pid'] and x['sig'] == 9 and x['call'] < s['call']]
+                if cmd == 1 and s['sig'] not in (want, 9) and not after_sigkill:       # Process.stop() terminate()s once more after the SIGKILL
                     rt.note('kill request with signum %r delivered signal %r', sig, s['sig'])
                     ok = False
             if r.replies and r.status == 'error' and added and cmd == 0:
@@ -390,5 +397,5 @@ def plan(tier):
         Cond('c18_number', budget=60, bounds={'n': 'R: all integers'}),
         Cond('c18_confinement', shards=[{'ps': i} for i in range(len(PIDSEL))], budget=240 if q else 1200, twins=2,
              bounds={'command': 'S{signal, kill}', 'pid': 'S%r' % (PIDSEL,), 'childpid': 'S%r' % (CHILDSEL,), 'children,recursive': 'S{False, True}',
-                     'state': 'S%r' % (STATES,), 'signal': 'S%r' % (SIGS,), 'process tree': 'every worker has one child and one grandchild'}),
+                     'state': 'S%r' % (STATES,), 'signal': 'S%r' % (SIGS,), 'stop_children of the named watcher': 'S{off, on (kill, active)}', 'process tree': 'every worker has one child and one grandchild'}),
     ]
